@@ -23,10 +23,12 @@ def analyse_ctor(facts, ty, body):
         s.tops = list(I.tops)
     return s
 
-def analyse_step(facts, ty, body, kind):
-    """kind: 'mut' (&mut self) or 'builder' (self -> Self)"""
+def analyse_step(facts, ty, body, kind, preset=None):
+    """kind: 'mut' (&mut self) or 'builder' (self -> Self); preset: {field: constant value} for fields
+    that no public operation ever writes (they keep the constructor's constant: a trivially inductive fact)"""
     I = new_interp(facts)
     selfv = I.sym_value(norm_ty(ty), 'self')
+    for k_, v_ in (preset or {}).items(): selfv.fields[k_] = copy.deepcopy(v_)
     pre = copy.deepcopy(selfv)
     ps = params_of(body)
     args = [I.sym_value(norm_ty(t), n) for n, t in ps[1:]]
@@ -44,6 +46,12 @@ def analyse_step(facts, ty, body, kind):
     s.tops = list(I.tops)
     return s
 
+def ground(v):
+    """value without atoms (a compile-time constant)"""
+    if is_term(v): return not atoms(v)
+    if isinstance(v, SeqV): return v.is_bytes() and not v.stores and all(s[0] == 'int' and s[1][0] == 'c' for s in v.segs)
+    return False
+
 class Table:
     def __init__(self, facts, ty, header_path):
         self.facts = facts; self.ty = ty; self.hp = header_path
@@ -54,6 +62,16 @@ class Table:
             k = classify(b, ty)
             if k == 'ctor': self.ctors.append(analyse_ctor(facts, ty, b))
             elif k in ('mut', 'builder'): self.steps.append(analyse_step(facts, ty, b, k))
+        # fields never written by any public operation and constant after every constructor
+        self.const_fields = {}
+        if self.ctors and self.steps and all(isinstance(c.post, StructV) for c in self.ctors):
+            for fld in self.ctors[0].post.fields:
+                vals = [c.post.fields.get(fld) for c in self.ctors]
+                if not all(ground(v) for v in vals) or any(repr(v) != repr(vals[0]) for v in vals): continue
+                if all(isinstance(s.post, StructV) and repr(s.post.fields.get(fld)) == repr(s.pre.fields.get(fld)) for s in self.steps):
+                    self.const_fields[fld] = vals[0]
+            if self.const_fields:
+                self.steps = [analyse_step(facts, ty, s.fn, s.kind, self.const_fields) for s in self.steps]
         adt = facts.adt(norm_ty(ty).split('<')[0])
         self.fields = {fd['name']: fd for fd in adt['variants'][0]['fields']}
         self.has_ledger = any(norm_ty(fd['ty']) == 'Checksum' for fd in self.fields.values())
